@@ -804,13 +804,18 @@ func SuccessOf(src string, in map[string]any) map[string]any {
 // Natural computes the natural outcome of a fixed-meaning program.
 func Natural(p *ir.Program, input map[string]any) *Facts {
 	f := &Facts{P: p, Input: input, Steps: map[string]*StepFacts{}, Producible: map[string]any{}, Pending: map[string]bool{}}
-	for _, s := range p.Steps {
-		sf := &StepFacts{ID: s.ID, Out: map[string]any{}, Stage: map[string]bool{}}
-		f.Steps[s.ID] = sf
-		if s.Kind == "foreach" {
-			f.naturalLoop(s, sf)
-		} else {
-			f.naturalPlugin(s, sf)
+	// Two passes: a stop condition may refer to a step that is listed later (the stopper of a hanging
+	// step), whose outcome is only known after the first pass.
+	for pass := 0; pass < 2; pass++ {
+		f.RunError = nil
+		for _, s := range p.Steps {
+			sf := &StepFacts{ID: s.ID, Out: map[string]any{}, Stage: map[string]bool{}}
+			f.Steps[s.ID] = sf
+			if s.Kind == "foreach" {
+				f.naturalLoop(s, sf)
+			} else {
+				f.naturalPlugin(s, sf)
+			}
 		}
 	}
 	for _, o := range p.Outputs {
